@@ -167,7 +167,7 @@ struct CaseRun {
         ExtractState es; ExtractOpt eo; eo.max_nodes = 100000;
         MVal y = extract(v, &es, eo);
         if (!exp.resync) {
-          CmpOpt co; co.mode = Cmp::Tol; co.tol_rel = 1e-6; std::string why;
+          CmpOpt co; co.mode = Cmp::Tol; co.tol_rel = kUseDouble ? 1e-6 : 1e-5; std::string why;   // (don't-care 14: 32-bit JsonFloat parses within 1e-5)
           if (!mv_equal(*n, y, co, &why)) viol("deserialized-value-differs", why + " | library has " + describe(y, 200));
         }
         if (!es.overflow) m.put(*n, y);
@@ -265,6 +265,7 @@ void vf_run_case(Ctx& c, uint64_t index) {
   ho.max_nodes = (size_t)std::min<uint64_t>(120, kMaxSlots / 3);
   ho.binext = true;
   ho.int64 = ARDUINOJSON_USE_LONG_LONG != 0;
+  ho.float32_only = !kUseDouble;
   int steps = (int)(r.chance(1, 20) ? r.range(300, 1500) : r.range(10, 200));
   if (alias_mode) steps = (int)r.range(3, 40);
   CaseRun run(c, ho.ndocs, ho.nrefs, r, c.mode.rfind("c06", 0) == 0);
